@@ -18,7 +18,8 @@ import (
 func init() {
 	register(&RuleSet{
 		ID: "C05",
-		Explanation: "R11 (T19, as C04.R12) in package tdx a quotient used as a stride (work split into equal shares) has its remainder dealt with. " +
+		Explanation: "R12 the bank list handed to the unaccepted-memory computation of package ovmf is the very list its caller was handed (a parameter, or a field of the parser it was handed), not a derivative. " +
+			"R11 (T19, as C04.R12) in package tdx a quotient used as a stride (work split into equal shares) has its remainder dealt with. " +
 			"R10 nothing in ovmf/tdx writes into storage obtained from a section's HostBuffer while section buffers share a backing array kept across sections. " +
 			"R1 declared order: every sort call in package ovmf sorts a slice allocated in the same function (a copy), so the declared order of metadata sections / regions / RAM banks is never permuted in place; tdx.MRTD extends the measurement by ranging over the regions the parser returned, in that order. " +
 			"R2 per-page sequence (ESP on the region measurement loop): within an iteration the page-add record precedes the extension records, both take the same page address expression, and extension is reachable only where the flag computed from the ExtendMR attribute or MeasureAllRegions is true. " +
@@ -618,6 +619,51 @@ func runC05(c *Ctx) {
 		c.S.Check(ok, "R3", load.FuncName(f)+":hand-off block always laid out", c.pos(at), "every possibly-successful return follows the call of the hand-off block builder", "the parser can return its region list without having called the hand-off block builder: the TD hand-off section is measured as whatever its buffer held (zero pages) instead of the generated block")
 	}
 	c.S.Floor("R3", "callers of the hand-off block builder in package ovmf", 1, nDrivers)
+
+	// R12: the RAM banks are the caller's. The unaccepted-memory computation (the function of package ovmf that takes
+	// the declared private regions and the guest RAM banks, both []GuestPhysicalRegion, and returns the unaccepted
+	// ranges) is handed, as its bank list, the bank list its caller was handed — the very parameter, not a sorted,
+	// merged or filtered derivative: the hand-off block has one unaccepted descriptor per uncovered part of *each*
+	// bank, so the identity and order of the banks is part of what is measured.
+	{
+		isRegionList := func(t types.Type) bool {
+			sl, ok := t.Underlying().(*types.Slice)
+			return ok && namedIs(sl.Elem(), repoPath("ovmf"), "GuestPhysicalRegion")
+		}
+		nSites := 0
+		for _, g := range c.P.RepoFunctions() {
+			if load.RelPkg(g) != "ovmf" || c.isTestFunc(g) || g.Blocks == nil {
+				continue
+			}
+			sig := g.Signature
+			if sig.Params().Len() != 2 || sig.Results().Len() != 1 || !isRegionList(sig.Params().At(0).Type()) || !isRegionList(sig.Params().At(1).Type()) || !isRegionList(sig.Results().At(0).Type()) {
+				continue
+			}
+			for _, f := range c.funcsCalling(func(call ssa.CallInstruction) bool { return call.Common().StaticCallee() == g }) {
+				if c.isTestFunc(f) {
+					continue
+				}
+				for _, call := range callsIn(f, func(call ssa.CallInstruction) bool { return call.Common().StaticCallee() == g }) {
+					nSites++
+					banks := call.Common().Args[1]
+					ok := false
+					for _, p := range f.Params {
+						if banks == ssa.Value(p) {
+							ok = true
+						}
+					}
+					// or a field of the parser / options the caller was handed, read as it is
+					if ld, isLd := banks.(*ssa.UnOp); isLd && ld.Op == token.MUL {
+						if fa, isFA := ld.X.(*ssa.FieldAddr); isFA && ownsValue(fa.X, f) {
+							ok = true
+						}
+					}
+					c.S.Check(ok, "R12", load.FuncName(f)+"→"+g.Name()+":bank list", c.pos(call.Pos()), "the bank list is the caller's own, unchanged", "the RAM bank list handed to "+g.Name()+" is not the list the caller was given (it has been sorted, merged or filtered on the way): banks that touch are no longer described one by one, and the hand-off block — which is measured — has other unaccepted-memory descriptors than the launch builds")
+				}
+			}
+		}
+		c.S.Floor("R12", "calls of the unaccepted-memory computation", 1, nSites)
+	}
 
 	// ---------------- R4 table agreement ----------------
 	secType := func(v ssa.Value) bool {
